@@ -643,6 +643,7 @@ Proof.
   - constructor; [apply acc_ok | eapply IH; eassumption].
   - cbn [omap_list] in Hp. apply bind_ok in Hp as (p & Hpp & Hp). apply bind_ok in Hp as (ps & Hps & Hp). inversion Hp; subst; clear Hp.
     constructor; [|eapply IH; [assumption | exact Hps | intros p0 t0 Hin; apply Hprops; right; exact Hin]].
+    pose proof Hdf as (Hnoflat & _). rewrite Hnoflat.
     change (Serde.field_key ra fl) with (Gen.field_key ra fl).
     specialize (Hprops (fst p) (snd p)). rewrite <- surjective_pairing in Hprops. specialize (Hprops (or_introl eq_refl)).
     rewrite (prop_of_key ra opt fl p Hpp) in Hprops. destruct (assoc (Gen.field_key ra fl) es) as [x|] eqn:Ha.
